@@ -500,6 +500,10 @@ def directed(tier):
          "div": 1.000000001, "t0": fx(0.0), "span": fx(1.0), "n_out": 2, "entropy_seed": 5},
         {"mode": "sdeint", "tail_ulps": 1, "solver": eul, "sde": sde, "front": "default", "steps": 101, "dtype": "float64",
          "div": 1.0, "t0": fx(0.0), "span": fx(1.0), "n_out": 2, "entropy_seed": 6},
+        # (seeded change C07-count_empty_queries) more than 100 empty queries before the first real one
+        {"mode": "machine", "config": _cfg(),
+         "ops": [{"op": "q", "ta": fx(0.25), "tb": fx(0.25), "U": False, "A": False, "tag": "zero", "rep": 150},
+                 {"op": "q", "ta": fx(0.25), "tb": fx(0.26), "U": False, "A": False}]},
     ]
     if tier == "thorough":
         out.append({"mode": "sweep", "config": _cfg(), "n": 30000, "grid": "float64", "div": 1.0, "backward": True,
